@@ -46,9 +46,6 @@ package dragonboat
 //@ func fieldfunc.node.sendRaftMessage [C04]
 //@ requires arg0.Type == pb.RequestVote || arg0.Type == pb.RequestVoteResp || arg0.Type == pb.ReplicateResp || arg0.Type == pb.HeartbeatResp ==> raftio.gSaved
 
-//@ func isFreeOrderMessage [C04]
-//@ ensures result == (m.Type == pb.Replicate || m.Type == pb.Ping)
-
 // may run before the save: sends only Replicate / Ping
 //@ func (n *node) sendReplicateMessages [C04]
 //@ noframe
